@@ -18,7 +18,7 @@ type MemDBV2 struct {
 	keysByDuty map[core.Duty][]memDBKey // Key index by duty for fast deletion.
 	deadliner  core.Deadliner
 	closed     chan struct{}
-	notify     chan struct{} // Notification channel for data availability
+	notify     chan struct{} // Closed (and replaced) on every store to wake all waiters
 }
 
 // NewMemDBV2 creates a basic memory based AggSigDB.
@@ -27,7 +27,7 @@ func NewMemDBV2(deadliner core.Deadliner) *MemDBV2 {
 		// data, keysByDuty are okay to use without explicit initialization
 		deadliner:  deadliner,
 		closed:     make(chan struct{}),
-		notify:     make(chan struct{}, 1), // Buffered channel for non-blocking sends
+		notify:     make(chan struct{}),
 		data:       map[memDBKey]core.SignedData{},
 		keysByDuty: map[core.Duty][]memDBKey{},
 	}
@@ -79,12 +79,10 @@ func (m *MemDBV2) Store(ctx context.Context, duty core.Duty, set core.SignedData
 		}
 	}
 
-	// Notify waiters that new data is available
-	select {
-	case m.notify <- struct{}{}:
-	default:
-		// Channel already has a pending notification
-	}
+	// Notify all waiters that new data is available: a single buffered token would
+	// only wake one of them, so broadcast by closing the channel and replacing it.
+	close(m.notify)
+	m.notify = make(chan struct{})
 
 	return nil
 }
@@ -92,27 +90,31 @@ func (m *MemDBV2) Store(ctx context.Context, duty core.Duty, set core.SignedData
 func (m *MemDBV2) Await(ctx context.Context, duty core.Duty, pubKey core.PubKey, subcommIdx core.SubcommitteeIndex) (core.SignedData, error) {
 	errMustLoop := errors.New("still needs loop")
 
-	query := func() (core.SignedData, error) {
+	// query also returns the notification channel that is current while the read lock is held,
+	// any later store closes it.
+	query := func() (core.SignedData, <-chan struct{}, error) {
 		m.RLock()
 		defer m.RUnlock()
 
 		select {
 		case <-ctx.Done():
-			return nil, ctx.Err()
+			return nil, nil, ctx.Err()
 		case <-m.closed:
-			return nil, ErrStopped
+			return nil, nil, ErrStopped
 		default:
 			data, ok := m.data[memDBKey{duty: duty, pubKey: pubKey, subcommIdx: subcommIdx}]
 			if !ok {
-				return nil, errMustLoop
+				return nil, m.notify, errMustLoop
 			}
 
-			return data.Clone()
+			clone, err := data.Clone()
+
+			return clone, nil, err
 		}
 	}
 
 	for {
-		data, err := query()
+		data, notify, err := query()
 		if err == nil {
 			return data, nil
 		}
@@ -127,7 +129,7 @@ func (m *MemDBV2) Await(ctx context.Context, duty core.Duty, pubKey core.PubKey,
 			return nil, ctx.Err()
 		case <-m.closed:
 			return nil, ErrStopped
-		case <-m.notify:
+		case <-notify:
 			// New data available, try again
 			continue
 		}
